@@ -75,21 +75,30 @@ def tmpl_parts(t):
     if kind == "deepnest":
         p0, incs = t[2], t[3]
         D = len(incs)
+        # level i (1..D) owns a local w_i, updates the outermost v, and (from level 3 on) the local w_(i-2) two levels out; after the
+        # inner level returns it folds its own w_i into v: stores reach variables 1..D levels out, at several slots per level
         lines = ["dn%d(p: MachineInteger): MachineInteger == {" % k, "\tv: MachineInteger := p;"]
         v = p0
-        for i, inc in enumerate(incs):
-            ind = "\t" * (i + 1)
-            op = "v * (2@MachineInteger) + %s" % L_(inc) if i % 2 else "v + %s" % L_(inc)
-            v = v * 2 + inc if i % 2 else v + inc
-            lines.append("%sl%d(): () == {" % (ind, i + 1))
+        w = {}
+        for i, inc in enumerate(incs, 1):
+            ind = "\t" * i
+            op = "v * (2@MachineInteger) + %s" % L_(inc) if i % 2 == 0 else "v + %s" % L_(inc)
+            v = v * 2 + inc if i % 2 == 0 else v + inc
+            w[i] = inc * 3 + i
+            lines.append("%sl%d(): () == {" % (ind, i))
+            lines.append("%s\tw%d: MachineInteger := %s;" % (ind, i, L_(w[i])))
             lines.append("%s\tfree v := %s;" % (ind, op))
-        for i in range(D - 1, -1, -1):
-            ind = "\t" * (i + 1)
+            if i >= 3:
+                lines.append("%s\tfree w%d := w%d + %s;" % (ind, i - 2, i - 2, L_(10 * i)))
+                w[i - 2] += 10 * i
+        for i in range(D, 0, -1):
+            ind = "\t" * i
+            if i < D:
+                lines.append("%s\tl%d();" % (ind, i + 1))
+            lines.append("%s\tv := v + w%d;" % (ind, i))      # v was declared free by this level's first assignment
+            v += w[i]
             lines.append("%s}" % ind)
-            lines.append("%sl%d();%s" % (ind, i + 1, " v := v - (1@MachineInteger);" if i > 0 else ""))
-            if i > 0:
-                v -= 1
-        lines += ["\tv", "}"]
+        lines += ["\tl1();", "\tv", "}"]
         return lines, ['prMI("d%d ", dn%d(%s));' % (k, k, L_(p0))], ["@ d%d %d" % (k, v)]
     if kind == "fluid":
         a, b, c = t[2:5]
@@ -100,6 +109,47 @@ def tmpl_parts(t):
         stm = ["bn%d();" % k, 'prMI("f%d after ", rd%d());' % (k, k), "(xf%d: MachineInteger, yf%d: MachineInteger) := bt%d();" % (k, k, k),
                'prMI("f%d tuple ", xf%d);' % (k, k), 'prMI("f%d after2 ", rd%d());' % (k, k)]
         return top, stm, ["@ f%d in %d" % (k, b), "@ f%d after %d" % (k, a), "@ f%d tuple %d" % (k, c), "@ f%d after2 %d" % (k, a)]
+    if kind == "accum":
+        start, k1, k2, xs = t[2], t[3], t[4], t[5]
+        FT = "MachineInteger -> MachineInteger"
+        top = ["mk%d(start: MachineInteger): (MachineInteger -> (%s)) == {" % (k, FT),
+               "\ttotal: MachineInteger := start;",
+               "\t(k: MachineInteger): (%s) +-> {" % FT,
+               "\t\tcalls: MachineInteger := (0@MachineInteger);",
+               "\t\t(x: MachineInteger): MachineInteger +-> {",
+               "\t\t\tfree calls := calls + (1@MachineInteger);",
+               "\t\t\tfree total := total + x * k + calls;",
+               "\t\t\ttotal", "\t\t}", "\t}", "}"]
+        stm = ["am%d: MachineInteger -> (%s) := mk%d(%s);" % (k, FT, k, L_(start)),
+               "aa%d: %s := am%d(%s);" % (k, FT, k, L_(k1)), "ab%d: %s := am%d(%s);" % (k, FT, k, L_(k2))]
+        total, calls, exp = start, [0, 0], []
+        for i, x in enumerate(xs):
+            which = i % 2
+            calls[which] += 1
+            total = total + x * (k1, k2)[which] + calls[which]
+            stm.append('prMI("a%d ", a%s%d(%s));' % (k, "ab"[which], k, L_(x)))
+            exp.append("@ a%d %d" % (k, total))
+        return top, stm, exp
+    if kind == "finally":
+        a, b, c = t[2:5]        # results: soft-caught value, hard-caught value, offset of the normal path
+        top = ["define Sf%d: Category == with;" % k, "Sf%dObj: Sf%d == add;" % (k, k), "define Hd%d: Category == with;" % k, "Hd%dObj: Hd%d == add;" % (k, k),
+               "wk%d(n: MachineInteger): MachineInteger == {" % k,
+               "\tif n = (0@MachineInteger) then throw Sf%dObj;" % k,
+               "\tif n = (1@MachineInteger) then throw Hd%dObj;" % k,
+               "\tn + %s" % L_(c), "}",
+               "gd%d(n: MachineInteger): MachineInteger == {" % k,
+               "\tx: MachineInteger := try wk%d(n) catch E in {" % k,
+               "\t\tE has Sf%d => %s;" % (k, L_(a)),
+               "\t\ttrue => throw E;",
+               "\t\tnever;",
+               "\t} finally {",
+               '\t\tprMI("lv%d ", n);' % k,
+               "\t}", "\tx", "}"]
+        stm, exp = [], []
+        for i in (0, 1, 2):
+            stm += ["rf%d_%d: MachineInteger := try gd%d(%s) catch E in { E has Hd%d => %s; never };" % (k, i, k, L_(i), k, L_(b)), 'prMI("g%d ", rf%d_%d);' % (k, k, i)]
+            exp += ["@ lv%d %d" % (k, i), "@ g%d %d" % (k, [a, b, 2 + c][i])]
+        return top, stm, exp
     raise ValueError(kind)
 
 
@@ -864,13 +914,17 @@ class G:
         tmpls = []
         if self.has("tmpl") and p.templates and not toplevel:
             for _ in range(self.int(1, 3)):
-                kind = self.pick(["state", "deepnest", "deepnest"] + ([] if p.java else ["fluid"]))
+                kind = self.pick(["state", "deepnest", "accum", "accum"] + ([] if p.java else ["fluid", "finally"]))
                 self.n += 1
                 k = self.n
                 if kind == "state":
                     t = ("state", k, self.int(-50, 2000), self.int(1, 300), self.int(-7, 9))
                 elif kind == "deepnest":
                     t = ("deepnest", k, self.int(-20, 50), tuple(self.int(-9, 9) for _ in range(self.int(2, 8))))
+                elif kind == "accum":
+                    t = ("accum", k, self.int(-100, 1000), self.int(-5, 9), self.int(-5, 9), tuple(self.int(-9, 20) for _ in range(self.int(2, 5))))
+                elif kind == "finally":
+                    t = ("finally", k, self.int(-9, -1), self.int(-99, -10), self.int(100, 900))
                 else:
                     t = ("fluid", k, self.int(-99, 99), self.int(100, 199), self.int(200, 299))
                 tmpls.append(t)
@@ -1403,9 +1457,33 @@ class Renderer:
         self.overloaded = {}
         for f in self.d["funcs"]:
             self.overloaded.setdefault(f["name"], []).append(f)
+        # half of the programs are written with the parentheses the grammar makes redundant left out, so that the parser's operator
+        # levels and associativity decide the tree: + - (level 6, left) < quo rem mod (7, left) < * (8, left) < ^ (9, right); unary
+        # minus takes a level-7 operand and yields level 6 (axl.z rules E6..E9)
+        self.minparen = int(phash(prog), 16) % 2 == 0
 
     def T(self, t):
         return tname(t)
+
+    OPLEVEL = {"+": 6, "-": 6, "quo": 7, "rem": 7, "mod": 7, "*": 8}
+
+    def m(self, e, need):
+        """text of e for a context that accepts operator level `need` and above"""
+        if not self.minparen:
+            return self.x(e)
+        k = e[0]
+        if k == "bin":
+            L = self.OPLEVEL[e[2]]
+            t = "%s %s %s" % (self.m(e[3], L), e[2], self.m(e[4], L + 1))
+        elif k == "neg":
+            L = 6
+            t = "-%s" % self.m(e[2], 7)
+        elif k == "pow":
+            L = 9
+            t = "%s ^ (%d@MachineInteger)" % (self.m(e[1], 11), e[2])
+        else:
+            return self.x(e)
+        return "(%s)" % t if L < need else t
 
     def x(self, e):
         k = e[0]
@@ -1420,10 +1498,12 @@ class Renderer:
             return "(%s@%s)" % (radix_lit(v, e[3]), self.T(t))
         if k == "var":
             return e[2]
+        if k in ("bin", "neg", "pow") and self.minparen:
+            return self.m(e, 100)
         if k == "bin":
             return "(%s %s %s)" % (self.x(e[3]), e[2], self.x(e[4]))
         if k == "lib":
-            return "%s(%s)" % (e[2], ", ".join(self.x(a) for a in e[4]))
+            return "%s(%s)" % (e[2], ", ".join(self.m(a, 0) for a in e[4]))
         if k == "neg":
             return "(-%s)" % self.x(e[2])
         if k == "pow":
@@ -1431,7 +1511,7 @@ class Renderer:
         if k == "mi2z":
             return "(%s :: Integer)" % self.x(e[1])
         if k == "cmp":
-            return "(%s %s %s)" % (self.x(e[3]), e[1], self.x(e[4]))
+            return "(%s %s %s)" % (self.m(e[3], 6), e[1], self.m(e[4], 6))
         if k == "and":
             return "(%s and %s)" % (self.x(e[1]), self.x(e[2]))
         if k == "or":
@@ -1447,7 +1527,7 @@ class Renderer:
                 f = [g for g in fs if g["idx"] == e[3]][0]
                 a = ", ".join("(%s)@%s" % (self.x(v), self.T(pt)) for v, (pn, pt) in zip(args, f["params"]))
                 return "((%s(%s))@%s)" % (e[2], a, self.T(e[1]))
-            return "%s(%s)" % (e[2], ", ".join(self.x(v) for v in args))
+            return "%s(%s)" % (e[2], ", ".join(self.m(v, 0) for v in args))
         if k == "mcall":
             return "%s(%s)" % (e[2], ", ".join(self.x(v) for v in e[3]))
         if k == "len":
@@ -1514,11 +1594,11 @@ class Renderer:
         if k == "tmpl":
             return [(I, l) for l in tmpl_parts(self.d["tmpls"][s[1]])[1]]
         if k == "decl":
-            return [(I, "%s: %s := %s;" % (s[1], self.T(s[2]), self.x(s[3])))]
+            return [(I, "%s: %s := %s;" % (s[1], self.T(s[2]), self.m(s[3], 0)))]
         if k == "assign":
-            return [(I, "%s := %s;" % (s[1], self.x(s[3])))]
+            return [(I, "%s := %s;" % (s[1], self.m(s[3], 0)))]
         if k == "print":
-            return [(I, 'pr%s("", %s);' % (s[1], self.x(s[2])))]
+            return [(I, 'pr%s("", %s);' % (s[1], self.m(s[2], 0)))]
         if k == "if":
             out = [(I, "if %s then {" % self.x(s[1]))] + self.blk(s[2], I + 1)
             if s[3] is not None:
